@@ -160,6 +160,9 @@ const FAULT_KINDS: &[&str] = &[
     "op-unknown-field", "op-unknown-fragment", "op-import-missing-file", "op-import-missing-fragment", "op-wildcard-twice",
     "gen-missing-schema-output", "gen-emit-runtime-dts", "cfg-unknown-plugin", "cfg-invalid", "cfg-no-schema",
     "schema-plugin-misuse", "gen-output-without-file-name", "schema-eof-unclosed", "op-eof-unclosed",
+    // faults deep inside nested blocks, next to blank lines, behind tabs or wide white space (what message_for_line's
+    // common-indentation logic has to cope with)
+    "op-deep-unknown-field", "op-deep-syntax", "op-deep-tabs", "op-wide-space-syntax", "schema-deep-unknown-type", "schema-deep-wide-doc",
 ];
 /// faults whose handling by the current code violates the property (known findings; kept in dedicated projects)
 const KNOWN_FAULT_KINDS: &[&str] = &["gen-scalar-type-missing", "op-invalid-unspread-fragment"];
@@ -305,6 +308,63 @@ fn inject(rng: &mut Rng, root: &Path, b: &mut Built, kind: &str, prefix: &mut Ve
             let ofile = abs(root, &b.proj.schema_files[other].0);
             f.stage = 4; f.files = vec![sfile];
             b.proj.faults.push(Fault { kind: "schema-twin-unknown-type".into(), stage: 4, files: vec![ofile], known: vec![], via: None });
+        }
+        "op-deep-unknown-field" | "op-deep-syntax" | "op-deep-tabs" | "op-wide-space-syntax" => {
+            // three levels of inline fragments on the query root, blank lines between the fields, the fault on a deeply
+            // indented line with an empty line on either side and every column-0 line at least three lines away
+            if suffix[dj].contains("Unclosed") { return false; }
+            let q = b.schema.query.clone();
+            let unit = if kind == "op-deep-tabs" { "\t" } else { "  " };
+            let ind = |n: usize| unit.repeat(n);
+            let fault_line = match kind {
+                "op-deep-syntax" => format!("{}$oops{serial}", ind(4)),
+                "op-wide-space-syntax" => format!("{}zzWide{serial}", if rng.chance(1, 2) { "\u{3000}\u{3000}" } else { "\u{a0}\u{a0}\u{a0}" }),
+                _ => format!("{}zzDeep{serial}", ind(4)),
+            };
+            let mut s = String::new();
+            let _ = writeln!(s, "query Deep{serial} {{");
+            let _ = writeln!(s, "{}... on {q} {{", ind(1));
+            let _ = writeln!(s, "{}... on {q} {{", ind(2));
+            let _ = writeln!(s, "{}... on {q} {{", ind(3));
+            let _ = writeln!(s);
+            let _ = writeln!(s, "{}__typename", ind(4));
+            let _ = writeln!(s);
+            let _ = writeln!(s, "{fault_line}");
+            let _ = writeln!(s);
+            let _ = writeln!(s, "{}__typename", ind(4));
+            let _ = writeln!(s);
+            let _ = writeln!(s, "{}}}", ind(3));
+            let _ = writeln!(s, "{}}}", ind(2));
+            let _ = writeln!(s, "{}}}", ind(1));
+            let _ = writeln!(s, "}}");
+            suffix[dj].push_str(&s);
+            f.stage = if kind == "op-deep-syntax" || kind == "op-wide-space-syntax" { 2 } else { 8 };
+            f.files = vec![dfile];
+        }
+        "schema-deep-unknown-type" | "schema-deep-wide-doc" => {
+            // blank lines inside a type body, the fault on an indented field line three lines away from the braces
+            let t = &mut b.proj.schema_files[sj].1;
+            if t.contains("Unclosed") { return false; }
+            let mut s = String::new();
+            let _ = writeln!(s, "type DeepType{serial} {{");
+            let _ = writeln!(s, "    a: Int");
+            let _ = writeln!(s);
+            let _ = writeln!(s, "    b: Int");
+            let _ = writeln!(s);
+            if kind == "schema-deep-wide-doc" {
+                // a block-string description whose lines are indented with wide white space
+                let _ = writeln!(s, "    \"\"\"");
+                let _ = writeln!(s, "\u{3000}\u{3000}wide\u{a0}doc");
+                let _ = writeln!(s, "    \"\"\"");
+            }
+            let _ = writeln!(s, "    zz: UndefDeep{serial}");
+            let _ = writeln!(s);
+            let _ = writeln!(s, "    c: Int");
+            let _ = writeln!(s);
+            let _ = writeln!(s, "    d: Int");
+            let _ = writeln!(s, "}}");
+            t.push_str(&s);
+            f.stage = 4; f.files = vec![sfile];
         }
         "schema-duplicate" => {
             // a second definition of an object type that exists somewhere in the schema
@@ -583,7 +643,7 @@ fn main() {
     let scratch = fs::canonicalize(&scratch).expect("scratch dir must exist");
     assert!(!scratch.starts_with("/repo") && !scratch.starts_with("/verif"), "scratch directory must be outside /repo and /verif");
     let mut rng = Rng::new(args.seed);
-    let n_projects = if thorough { 1200 } else { 51 };
+    let n_projects = if thorough { 1200 } else { 60 };
     let mut outs: Vec<CaseOut> = vec![];
     let mut stats: BTreeMap<String, u64> = BTreeMap::new();
     let mut bump = |k: &str, n: u64| { *stats.entry(k.to_string()).or_insert(0) += n; };
